@@ -89,6 +89,9 @@ impl NodeState {
 // ---- the persister: key-value reads (unit kvv_*), (de)serialisation of values (serde, assumed a round trip) ----
 #[verifier::external_body] pub struct VxKvvPersister { _p: u8 }
 pub uninterp spec fn de_state_entry(bytes: Seq<u8>) -> NodeStateEntry;
+pub uninterp spec fn ser_state_entry(e: NodeStateEntry) -> Seq<u8>;
+#[verifier::external_body]
+pub fn vx_ser_state_entry(e: &NodeStateEntry) -> (r: Result<Vec<u8>, Error>) ensures r.is_ok() ==> r->Ok_0@ == ser_state_entry(*e) { unimplemented!() }
 #[verifier::external_body]
 pub fn vx_de_node_entry(value: &Vec<u8>) -> Result<NodeEntry, Error> { unimplemented!() }
 #[verifier::external_body]
@@ -111,6 +114,37 @@ impl VxKvvPersister {
     pub fn vx_get_state_value(&self, node_id: &PublicKey) -> (r: Result<Vec<u8>, Error>) ensures r.is_ok() ==> r->Ok_0@ == stored_state_bytes(*self, *node_id) { unimplemented!() }
     #[verifier::external_body]
     pub fn vx_allowlist(&self, node_id: &PublicKey, network: Network) -> Result<Vec<VxAllowable>, Error> { unimplemented!() }
+
+    // the write side: keys, serialisation (serde, assumed a round trip) and the store's put / delete (units kvv_*)
+    pub uninterp spec fn kv_put_state(&self, node_id: PublicKey, value: Seq<u8>) -> bool;     // call marker: put(node-state key of this node, value)
+    pub uninterp spec fn kv_deleted_state(&self, node_id: PublicKey) -> bool;                 // call marker: delete(node-state key of this node)
+    pub uninterp spec fn kv_deleted_entry(&self, node_id: PublicKey) -> bool;                 // call marker: delete(node-entry key of this node)
+    #[verifier::external_body]
+    pub fn vx_put_state(&self, node_id: &PublicKey, value: Vec<u8>) -> (r: Result<(), Error>) ensures r.is_ok() ==> self.kv_put_state(*node_id, value@) { unimplemented!() }
+    #[verifier::external_body]
+    pub fn vx_delete_entry(&self, node_id: &PublicKey) -> (r: Result<(), Error>) ensures r.is_ok() ==> self.kv_deleted_entry(*node_id) { unimplemented!() }
+    #[verifier::external_body]
+    pub fn vx_delete_state(&self, node_id: &PublicKey) -> (r: Result<(), Error>) ensures r.is_ok() ==> self.kv_deleted_state(*node_id) { unimplemented!() }
+
+//@fn vls-persist/src/kvv.rs :: impl<S: KVVStore, F: ValueFormat> Persist for KVVPersister<S, F> :: update_node props=C12,C11,C15
+    ensures
+        // what goes to the store under this node's state key is the serialisation of an entry that holds each velocity
+        // control under its own name and the id high-water mark as it is
+        r.is_ok() ==> exists|e: NodeStateEntry| e.velocity_control == to_model(state.velocity_control)
+            && e.fee_velocity_control == to_model(state.fee_velocity_control) && e.dbid_high_water_mark == state.dbid_high_water_mark
+            && #[trigger] self.kv_put_state(*node_id, ser_state_entry(e)),                                        //[C11.store.node-state-written-under-node-key]
+//@sub /(?s)let key = make_key\(NODE_STATE_PREFIX, &node_id\.serialize\(\)\);/ => 
+//@sub /let entry: NodeStateEntry = state\.into\(\);/ => let entry: NodeStateEntry = NodeStateEntry::from(state);
+//@sub /F::ser_value\(&entry\)\?/ => vx_ser_state_entry(&entry)?
+//@sub /self\.put\(&key, value\)/ => self.vx_put_state(node_id, value)
+//@end
+
+//@fn vls-persist/src/kvv.rs :: impl<S: KVVStore, F: ValueFormat> Persist for KVVPersister<S, F> :: delete_node props=C11
+    ensures r.is_ok() ==> self.kv_deleted_entry(*node_id) && self.kv_deleted_state(*node_id),                     //[C11.store.delete-node-removes-both-records]
+//@sub /let id = node_id\.serialize\(\);/ => 
+//@sub /self\.delete\(&make_key\(NODE_ENTRY_PREFIX, &id\)\)/ => self.vx_delete_entry(node_id)
+//@sub /self\.delete\(&make_key\(NODE_STATE_PREFIX, &id\)\)/ => self.vx_delete_state(node_id)
+//@end
 
 //@fn vls-persist/src/kvv.rs :: impl<S: KVVStore, F: ValueFormat> Persist for KVVPersister<S, F> :: get_nodes props=C12,C11,C15
 //@sigsub /CoreNodeEntry/ => VxCoreNodeEntry
